@@ -151,6 +151,8 @@ def stage(ctx, sany=True):
 
 
 def known_flags():
+    if os.environ.get("VERIF_C03_STRICT"):     # development aid: behave as if no known finding were listed
+        return {"dangling": False, "v6branch": False}
     ids = {f.get("id") for f in lib.load_known_findings() if f.get("property") == "C03" and f.get("status") == "open"}
     return {"dangling": KF_DANGLING in ids, "v6branch": KF_V6BRANCH in ids}
 
@@ -181,9 +183,14 @@ def cs_samples(seed, quick):
 
 
 def compactsize(ctx, d, bins, totals):
-    r = lib.tlc(ctx, d, "MC_CompactSize4", "MC_CompactSize4.cfg", workers=8, timeout=900)
-    if r.distinct != 4 ** 8:
-        raise lib.ToolError("vacuity: MC_CompactSize4 explored %d values instead of 65536" % r.distinct)
+    # quick: the two most significant digits range over {0, 3} (all class structure lives in the low six digits)
+    top = "{0, 3}" if ctx.quick() else "{0, 1, 2, 3}"
+    with open(os.path.join(d, "MC_CompactSize4_run.cfg"), "w") as f:
+        f.write("SPECIFICATION Spec\nCONSTANTS\n  B = 4\n  MaxV <- MaxVDef\n  TopDigits = %s\nINVARIANT Thm\nCHECK_DEADLOCK FALSE\n" % top)
+    r = lib.tlc(ctx, d, "MC_CompactSize4", "MC_CompactSize4_run.cfg", workers=8, timeout=900)
+    want = 4 ** 6 * (4 if ctx.quick() else 16)
+    if r.distinct != want:
+        raise lib.ToolError("vacuity: MC_CompactSize4 explored %d values instead of %d" % (r.distinct, want))
     lib.account_tlc(ctx, r)
     cases = emit_cs_cases(ctx, d, cs_samples(ctx.seed, ctx.quick()), [0, 1, 2, 252, 253, 254, 300] + ([] if ctx.quick() else [65535, 65536]))
     path = ctx.path("cs_cases.ndjson")
